@@ -1,3 +1,9 @@
+# one source, six parts (-DHXS_PART=n) so that the builds run in parallel: value uses, key uses, index lookups,
+# containsKey/remove lookups, comparison operands, copy paths + sharing grid
+def _c14_jobs():
+    return [{"src": "checks/hx_strings.cpp", "mode": "strings", "arduino": True, "deps": ["checks/hx_strings.hpp"],
+             "defs": ["HXS_PART=%d" % part], "fallback_defs": ["VERIF_NO_INSPECTOR"]} for part in range(1, 7)]
+
 PROPS["C14"] = {
     "level": "exploration",
     "technique": "exhaustive pairwise differential enumeration: string alphabet x source kinds x uses x mini-histories on the real library; "
@@ -16,9 +22,7 @@ PROPS["C14"] = {
                     "ordering results (< <= > >=) are compared between kinds only; their absolute value is C18's business; == / != with a string "
                     "operand must be true exactly when the bytes are identical",
                     "default configuration (ARDUINOJSON_STRING_LENGTH_SIZE=2: maximum length 65535)"],
-    "quick": [{"src": "checks/hx_strings.cpp", "mode": "strings", "arduino": True, "deps": ["checks/hx_strings.hpp"],
-               "fallback_defs": ["VERIF_NO_INSPECTOR"]}],
-    "thorough": [{"src": "checks/hx_strings.cpp", "mode": "strings", "arduino": True, "deps": ["checks/hx_strings.hpp"],
-                  "fallback_defs": ["VERIF_NO_INSPECTOR"]}],
+    "quick": _c14_jobs(),
+    "thorough": _c14_jobs(),
     "thorough_deadline": 900,
 }
